@@ -17,7 +17,7 @@ RULE = ("token trees (exhaustive up to a node bound over a 3-token alphabet, ran
         "text is malformed")
 DECISIVE = ["compared"]
 DECISIVE_EACH = ["compared:file", "compared:str", "compared:malformed"]
-EXHAUSTIVE = "all token trees with <= N nodes over the alphabet {a, b-1, ?x} (N=5 quick sample / N=6 thorough)"
+EXHAUSTIVE = "all token trees with <= N nodes over the alphabet {a, b-1, ?x} (N=5 quick, sampled at the bound / N=7 thorough)"
 ASSUMPTIONS = ["reference reader vlib.sx.read is the specification (validated by round-trip self-test)",
                "lone CR line ends and bare-atom top-level inputs are outside the statement"]
 SHARDS = {"quick": 8, "thorough": 16}
@@ -144,7 +144,7 @@ def run(ctx):
     rng = ctx.rng("c11")
     thorough = ctx.tier == "thorough"
     # ---- part 1: bounded-exhaustive trees -------------------------------------------
-    nmax = 6 if thorough else 5
+    nmax = 7 if thorough else 5
     idx = 0
     for n in range(1, nmax + 1):
         for t in all_trees(n):
@@ -159,7 +159,7 @@ def run(ctx):
             ctx.count("exhaustive_blocks")
             plain = sx.plain(t)
             layouts = [plain]
-            for k in range(3 if thorough else 2):
+            for k in range((3 if n <= 6 else 1) if thorough else 2):
                 layouts.append(sx.render(t, rng, hostile=rng.choice([0.3, 0.7, 1.0]), upper=rng.choice([0, 0.5]),
                                          crlf=rng.random() < 0.3))
             for txt in layouts:
